@@ -5,6 +5,7 @@ import OapiVerif.Model.Codec
 import OapiVerif.Model.Paths
 import OapiVerif.Model.Names
 import OapiVerif.Model.Responses
+import OapiVerif.Model.Embed
 /-!
 Line-protocol driver: one JSON object per line in, one per line out.
 `{"fn": <name>, ...}` ↦ `{"ok": <result>}` or `{"err": "bad-op"}` (never a default).
@@ -247,6 +248,13 @@ def responsesD (j : Json) : Except String Json := do
     pure (match parse rs st (ct.toList.map Char.toNat) with | some f => Json.str (str f) | none => Json.null)
   pure (Json.mkObj [("cases", Json.arr cases.toArray), ("answers", Json.arr answers.toArray)])
 
+open Embed in
+def embedD (j : Json) : Except String Json := do
+  let bs ← getHex j "bytes"
+  let enc := b64encode bs
+  pure (Json.mkObj [("b64", hexStr enc), ("chunks", Json.arr ((chunk 80 enc).map fun c => Json.num c.length).toArray),
+    ("decoded", match b64decode bs with | some r => Json.str (hexStr r) | none => Json.null)])
+
 def dispatch (fn : String) (j : Json) : Except String Json :=
   match fn with
   | "prune" => prune j
@@ -257,6 +265,7 @@ def dispatch (fn : String) (j : Json) : Except String Json :=
   | "parseQuery" => parseQueryD j
   | "bindStyled" => bindStyledD j
   | "bindQuery" => bindQueryD j
+  | "embed" => embedD j
   | "responses" => responsesD j
   | "names" => namesD j
   | "scan" => scanD j
